@@ -70,7 +70,7 @@ ENTRY = {'coq_dir': 'C19',
          "dictionary additions: kind 5 simple-dns parse summary, 6 text multiaddr parse, 7 ed25519 signature check against the scripted remote's "
          'static key, 8 tungstenite upgrade accepted + bytes consumed. INVENTORY TIE: tools/gen_c19_sites.py scans src/**/*.rs on every check for '
          'every decode / from_bytes / try_from / parse / read_ / varint / from_utf8 / third-party entry / with_capacity / vec![;n] / resize / '
-         'reserve / zeroed / split_to / advance / truncate / get_uN / range-slice token (236 sites) and every ProtocolCodec choice (7) -> '
+         'reserve / zeroed / split_to / advance / truncate / get_uN / range-slice token (239 sites) and every ProtocolCodec choice (7) -> '
          'coq/gen/DecodeSites.v; coq/C19/Sites.v classifies each site and proves sites_match / codecs_match / codecs_all_bounded / maddr_codes_match '
          '/ third-party limits, so a new or moved parse / allocation site, a protocol without frame limit, a new multiaddr protocol or a changed '
          'default of tungstenite / snow / yamux / prost is a failed obligation',
@@ -99,7 +99,7 @@ ENTRY = {'coq_dir': 'C19',
                   'the lengths are plausible), and a truncated AEAD message never authenticates',
                   'new hooks (repo commit "verif hooks: a real Mdns object ..."): protocol::mdns::verif::VerifMdns (real Mdns::new, '
                   'on_inbound_response / on_inbound_request / parse_packet; the 8-line dispatch of the recv_from arm of Mdns::start is transcribed '
-                  'in on_datagram), transport::websocket::verif::VerifWsStream (the production BufferedStream built by accept_async / '
+                  'in on_datagram), transport::websocket::verif_stream::VerifWsStream (the production BufferedStream built by accept_async / '
                   'client_async_tls / from_raw_socket exactly as accept_connection / dial_peer do, over a caller-supplied socket)',
                   'allocation bounds of the new kinds (measurements + the third-party defaults): Noise handshake 2 MiB (NoiseSocket buffers '
                   '5*65535+..), WebSocket 16 MiB (tungstenite max_frame_size, reserved when the header arrives) + 8|stream| + 1 MiB, mDNS 96 bytes '
